@@ -1074,7 +1074,13 @@ func Hashes(id, tier string, seed uint64, n int, workers int) int {
 				if out.V != nil {
 					cls = out.V.Class
 				}
-				lines[i] = fmt.Sprintf("%d %016x %d %s", i, out.TraceHash, t.Pos(), cls)
+				// trace hash, tape length, violation class, and what the run contributes to the evidence measures
+				// (abstract states, non-triviality) - those must be as repeatable as the verdict
+				var sh uint64 = 1469598103934665603
+				for _, st := range out.States {
+					sh = (sh ^ st) * 1099511628211
+				}
+				lines[i] = fmt.Sprintf("%d %016x %d %s states=%016x nontrivial=%v", i, out.TraceHash, t.Pos(), cls, sh, out.Nontrivial)
 			}
 		}()
 	}
